@@ -306,7 +306,7 @@ func c16r3(c *core.Ctx) {
 		returned := false
 		core.Instrs(r, func(j ssa.Instruction) {
 			if ret, ok := j.(*ssa.Return); ok && len(res(ret)) == 2 && core.IsNilConst(res(ret)[0]) &&
-				(res(ret)[1] == errv || core.AnySource(res(ret)[1], func(s ssa.Value) bool { return s == errv })) {
+				(res(ret)[1] == errv || core.SomeSource(res(ret)[1], func(s ssa.Value) bool { return s == errv })) { // the returned error may merge several reads
 				returned = true
 			}
 		})
